@@ -226,56 +226,46 @@ func runProperty[C any](t *testing.T, prop string, gen func(*rapid.T) C, run fun
 		if o.Skip {
 			return
 		}
-		if st.Violation != "" {
-			// rapid is minimising a failure: no accounting, only keep the latest failing case
-			if o.Violation != "" && !isKnown(known, o.Sig) {
-				cj, _ := json.Marshal(c)
-				rf := ReplayFile{Property: prop, Seed: *flagSeed, Worker: *flagWorker, RapidSeed: curRapidSeed, Violation: o.Violation, Sig: o.Sig, Case: cj}
-				b, _ := json.MarshalIndent(rf, "", " ")
-				_ = os.WriteFile(replayPath, b, 0o644)
-				st.Violation = o.Violation
-				st.Sig = o.Sig
-				rt.Fatalf("VIOLATION %s: %s", o.Sig, o.Violation)
-			}
-			return
-		}
-		caseNo++
-		st.Cases++
-		if o.Evals > 0 {
-			st.Evals += o.Evals
-		} else {
-			st.Evals++
-		}
-		// in-process re-execution of a sample of cases: the run must be a pure function of the case
-		if o.Digest != "" && (caseNo <= 3 || caseNo%97 == 0) {
-			o2 := run(c)
-			if o2.Digest != o.Digest || o2.Violation != o.Violation {
-				cj, _ := json.Marshal(c)
-				st.Nondet = fmt.Sprintf("case %d gave digest %s then %s (violation %q then %q): %s", caseNo, o.Digest, o2.Digest, o.Violation, o2.Violation, cj)
-			}
-		}
-		if *flagDigests {
-			st.Digests = append(st.Digests, o.Digest)
-		}
-		for k, v := range o.Probes {
-			st.Probes[k] += v
-		}
-		for k, v := range o.Faults {
-			st.Faults[k] += v
-		}
-		st.SimNanos += o.SimNanos
-		st.Inconclusive += o.Inconclusive
-		if o.NonTrivial {
-			st.NonTrivial++
-			if len(distinct) < distinctCap {
-				distinct[hashStr(o.Behaviour)] = true
+		frozen := st.Violation != "" // rapid is reproducing / minimising a failure: no accounting
+		if !frozen {
+			caseNo++
+			st.Cases++
+			if o.Evals > 0 {
+				st.Evals += o.Evals
 			} else {
-				st.DistinctCap = true
+				st.Evals++
 			}
-		}
-		if len(st.Samples) < 3 && o.NonTrivial && o.Violation == "" {
-			if cj, err := json.Marshal(c); err == nil && len(cj) < 6000 {
-				st.Samples = append(st.Samples, cj)
+			// in-process re-execution of a sample of cases: the run must be a pure function of the case
+			if o.Digest != "" && (caseNo <= 3 || caseNo%97 == 0) {
+				o2 := run(c)
+				if o2.Digest != o.Digest || o2.Violation != o.Violation {
+					cj, _ := json.Marshal(c)
+					st.Nondet = fmt.Sprintf("case %d gave digest %s then %s (violation %q then %q): %s", caseNo, o.Digest, o2.Digest, o.Violation, o2.Violation, cj)
+				}
+			}
+			if *flagDigests {
+				st.Digests = append(st.Digests, o.Digest)
+			}
+			for k, v := range o.Probes {
+				st.Probes[k] += v
+			}
+			for k, v := range o.Faults {
+				st.Faults[k] += v
+			}
+			st.SimNanos += o.SimNanos
+			st.Inconclusive += o.Inconclusive
+			if o.NonTrivial {
+				st.NonTrivial++
+				if len(distinct) < distinctCap {
+					distinct[hashStr(o.Behaviour)] = true
+				} else {
+					st.DistinctCap = true
+				}
+			}
+			if len(st.Samples) < 3 && o.NonTrivial && o.Violation == "" {
+				if cj, err := json.Marshal(c); err == nil && len(cj) < 6000 {
+					st.Samples = append(st.Samples, cj)
+				}
 			}
 		}
 		if o.Violation == "" {
@@ -283,8 +273,10 @@ func runProperty[C any](t *testing.T, prop string, gen func(*rapid.T) C, run fun
 		}
 		for _, k := range known {
 			if k.re.MatchString(o.Sig) {
-				st.Known[o.Sig]++
-				st.KnownDesc[o.Sig] = k.desc
+				if !frozen {
+					st.Known[o.Sig]++
+					st.KnownDesc[o.Sig] = k.desc
+				}
 				return
 			}
 		}
@@ -294,9 +286,14 @@ func runProperty[C any](t *testing.T, prop string, gen func(*rapid.T) C, run fun
 		b, _ := json.MarshalIndent(rf, "", " ")
 		_ = os.WriteFile(replayPath, b, 0o644)
 		st.Violation = o.Violation
+		if len(st.Violation) > 3000 {
+			st.Violation = st.Violation[:3000] + " ...[truncated; full text in the replay file]"
+		}
 		st.Sig = o.Sig
 		st.ReplayFile = replayPath
-		rt.Fatalf("VIOLATION %s: %s", o.Sig, o.Violation)
+		// the message is the signature only: rapid compares messages to decide whether a
+		// shrunk case is "the same failure", i.e. the same violation class
+		rt.Fatalf("VIOLATION %s", o.Sig)
 	}
 
 	base := splitmix(*flagSeed*1000003 + uint64(*flagWorker)*7919 + 1)
